@@ -129,6 +129,100 @@ def two_pass(impl, op, rng, variant):
     return None
 
 
+LAYOUTS = ("fortran", "strided", "negstride", "tview", "offset")
+
+
+def _relayout(np, d, layout):
+    """The same logical array in another memory layout (None: not applicable to this shape)."""
+    if d.ndim == 0:
+        return None
+    if layout == "fortran":
+        return np.asfortranarray(d) if d.ndim >= 2 else None
+    if layout == "strided":          # every second element of a wider buffer along the last axis
+        big = np.full(d.shape[:-1] + (2 * d.shape[-1] + 1,), 7.5, dtype=d.dtype)
+        big[..., 1::2] = d
+        return big[..., 1::2]
+    if layout == "negstride":        # reversed storage along the first axis
+        return d[::-1].copy()[::-1]
+    if layout == "offset":           # interior crop of a larger buffer: dense last axis, gaps between rows
+        big = np.full(tuple(n + 2 for n in d.shape), -3.25, dtype=d.dtype)
+        sl = tuple(slice(1, n + 1) for n in d.shape)
+        big[sl] = d
+        return big[sl]
+    return None
+
+
+def layout_pass(impl, op, rng, layout, dtype=None):
+    """The result and every leaf gradient of an operation do not depend on the memory layout of its operands (Fortran order,
+    strided / negative-stride / cropped views, a transposed tensor view of a transposed leaf).  Baseline: C-contiguous
+    operands.  Returns None or a description of the disagreement."""
+    from lib import opcatalog
+    import random
+    np, sg = impl.np, impl.synapgrad
+    dtype = dtype or np.float64
+    impl.reset_modes()
+    datas = [opcatalog.make_operand(impl, rng, s, dtype) for s in op.operands]
+
+    def head(ts):
+        out = op.call(ts)
+        return (list(out) if op.multi else [out])
+
+    def run(make):
+        leaves, operands = [], []
+        for s, d in zip(op.operands, datas):
+            lf, opd = make(s, d)
+            leaves.append(lf); operands.append(opd)
+        outs = head(operands)
+        r2 = random.Random(11)
+        tot = None
+        for o in outs:
+            if not o.requires_grad:
+                continue
+            c = np.array([r2.uniform(0.5, 2.0) for _ in range(o.data.size)], dtype=o.data.dtype).reshape(o.shape)
+            t = (o * sg.Tensor(c)).sum()
+            tot = t if tot is None else tot + t
+        if tot is not None:
+            tot.backward()
+        return [np.array(o.data) for o in outs], [None if l._grad is None else np.array(l._grad) for l in leaves]
+
+    def contiguous(s, d):
+        t = sg.Tensor(d.copy(), requires_grad=bool(s[2]))
+        return t, t
+    used = [False]
+
+    def changed(s, d):
+        if layout == "tview":
+            if d.ndim < 2 or not s[2]:
+                return contiguous(s, d)
+            used[0] = True
+            leaf = sg.Tensor(np.ascontiguousarray(np.swapaxes(d, 0, d.ndim - 1)), requires_grad=True)
+            return leaf, leaf.transpose(0, d.ndim - 1)
+        v = _relayout(np, d.copy(), layout)
+        if v is None:
+            return contiguous(s, d)
+        used[0] = True
+        t = sg.Tensor(v, requires_grad=bool(s[2]))
+        return t, t
+    o0, g0 = run(contiguous)
+    o1, g1 = run(changed)
+    if not used[0]:
+        return None
+    tol = dict(rtol=1e-9, atol=1e-11) if np.dtype(dtype) == np.float64 else dict(rtol=2e-4, atol=1e-5)
+    for k, (x0, x1) in enumerate(zip(o0, o1)):
+        if x0.shape != x1.shape or not np.allclose(x0, x1, equal_nan=True, **tol):
+            return "output %d with %s operands: %s, with C-contiguous operands: %s" % (k, layout, x1.ravel()[:4].tolist(), x0.ravel()[:4].tolist())
+    for i, (s, x0, x1) in enumerate(zip(op.operands, g0, g1)):
+        if x0 is None and x1 is None:
+            continue
+        if layout == "tview" and s[2] and datas[i].ndim >= 2 and x1 is not None:
+            x1 = np.swapaxes(x1, 0, datas[i].ndim - 1)
+        if x0 is None or x1 is None or x0.shape != x1.shape or not np.allclose(x0, x1, equal_nan=True, **tol):
+            return "gradient of operand %d with %s operands: %s, with C-contiguous operands: %s" % (
+                i, layout, None if x1 is None else x1.ravel()[:4].tolist(), None if x0 is None else x0.ravel()[:4].tolist())
+    impl.reset_modes()
+    return None
+
+
 def run_part(ctx):
     from lib import impl, opcatalog
     np = impl.np
@@ -218,6 +312,21 @@ def run_part(ctx):
                 ctx.witness(op.wrapper, "two-pass/" + variant, {"op": op.name, "variant": variant},
                             "leaf gradients after two backward passes through a shared result = sum of the two single-pass gradients; the caller's gradient tensor is not modified",
                             {"problem": v})
+    # memory-layout independence (operands that are Fortran-ordered / strided / cropped / transposed views)
+    for op in ops:
+        for layout in LAYOUTS:
+            for dtype in ((np.float64,) if ctx.quick else (np.float64, np.float32)):
+                cases += 1
+                distinct.add((op.name, layout))
+                try:
+                    v = layout_pass(impl, op, _random.Random(ctx.seed), layout, dtype)
+                except Exception as ex:
+                    v = "raised %r" % (ex,)
+                if v:
+                    mism.append({"op": op.name, "layout": layout, "problem": v})
+                    ctx.witness(op.wrapper, "layout/" + layout, {"op": op.name, "layout": layout, "dtype": str(np.dtype(dtype))},
+                                "values and leaf gradients are those obtained with C-contiguous operands holding the same numbers",
+                                {"problem": v})
     missing = [op.wrapper for op in ops if op.wrapper not in by_name] if summaries else []
     uncovered = [n for n in by_name if n not in set(op.wrapper for op in ops)]
     if missing:
@@ -242,6 +351,14 @@ def replay(ctx, data):
     op = ops.get(inp["op"])
     if op is None:
         print("unknown catalogue op", inp["op"]); return 1
+    if "variant" in inp or "layout" in inp:
+        try:
+            v = two_pass(impl, op, random.Random(ctx.seed), inp["variant"]) if "variant" in inp else \
+                layout_pass(impl, op, random.Random(ctx.seed), inp["layout"], getattr(np, str(inp.get("dtype", "float64"))))
+        except Exception as ex:
+            v = "raised %r" % (ex,)
+        print("observed", v)
+        return 1 if v else 0
     flags = tuple(inp.get("requires_grad_flags", inp.get("flags", [])))
     gm = bool(inp.get("grad_mode", True))
     dtype = getattr(np, str(inp.get("dtype", "float64")))
